@@ -34,6 +34,9 @@ def gen_tokens(rng):
             # ... also inside a loop, right before the loop-break ':' (which is an argument separator inside expressions)
             toks += ["[%d" % rng.randint(2, 3), rng.choice(["c", "d8 e"]), rng.choice(["Tempo=%d" % rng.randint(60, 200), "@%d" % rng.randint(1, 128), "TR=1", "v=%d" % rng.randint(1, 127), "y7,%d" % rng.randint(0, 127)]) + "\0", ":", rng.choice(["g", "a b"]), "]"]
     toks = [t for t in toks if t]
+    # a macro / variable reference takes a directly following `{…}` or `(…)` on its line as its argument: close it with `;` there
+    for i in range(len(toks) - 1):
+        if toks[i] in ("#M", "S2") and toks[i + 1][:1] in ("{", "(", "="): toks[i] += ";"
     if rng.random() < 0.06:
         # a written sharp, later a function definition, and a call of that function: whether the definition is found must not depend on
         # what else is written on its line
